@@ -474,6 +474,41 @@ pub fn run_c06(tier: &str, seed: u64, model: &Model, corpus_lines: Vec<String>, 
             }
         }
     }
+    // informational stream: ill-formed text (outside the property's domain) — validates the line-grammar
+    // model of rust-bio beyond well-formed files; disagreements are logged, never decide
+    if tier != "replay" {
+        let n = if tier == "thorough" { 4000 } else { 400 };
+        let toks: Vec<&[u8]> = vec![b">", b"@", b"+", b"\n", b"\r\n", b" ", b"\t", b"ACGT", b"N", b"id", b"x y", b"", b"\n\n", b">\n", b"@\n", b"IIII", b"+\n", b"\x0b", b"A"];
+        for i in 0..n {
+            let fastq = rng.chance(1, 2);
+            let len = rng.range(0, 14) as usize;
+            let mut bytes: Vec<u8> = Vec::new();
+            if rng.chance(3, 4) {
+                bytes.push(if fastq { b'@' } else { b'>' });
+            }
+            for _ in 0..len {
+                let t: &[u8] = toks[rng.below(toks.len() as u64) as usize];
+                bytes.extend_from_slice(t);
+            }
+            let path = format!("{}/junk_{}_{}{}", work, seed, i, if fastq { ".fq" } else { ".fa" });
+            std::fs::write(&path, &bytes).unwrap();
+            let imp = read_impl(&path);
+            let _ = std::fs::remove_file(&path);
+            let ans = model.query(&[format!("parse {} {}", if fastq { "fastq" } else { "fasta" }, hex(&bytes))]);
+            let pm: Vec<&str> = ans[0].split('|').collect();
+            let model_out = if pm.len() >= 4 && pm[2] == "done" { format!("{}|{}", pm[1], pm[3]) } else { "panic".to_string() };
+            let imp_c = if imp.starts_with("panic") { "panic".to_string() } else { imp.clone() };
+            rep.evaluations += 1;
+            rep.count("junk/informational", 1);
+            rep.count(&format!("junk/outcome:{}", if imp_c == "panic" { "reader-error" } else { "parsed" }), 1);
+            if imp_c != model_out {
+                rep.info_disagreements += 1;
+                if rep.info_samples.len() < 6 {
+                    rep.info_samples.push(format!("[junk {}] bytes=\"{}\" impl={} model={}", if fastq { "fastq" } else { "fasta" }, show(&bytes), trunc(&imp, 200), trunc(&model_out, 200)));
+                }
+            }
+        }
+    }
     // suffix table
     let names: Vec<String> = crate::p_tables::FORMAT_NAMES.iter().map(|s| s.to_string()).collect();
     let reqs: Vec<String> = names.iter().map(|n| format!("format {}", hex(n.as_bytes()))).collect();
